@@ -211,8 +211,20 @@ func driver(seed uint64, n int, outV, outJSON string, _ []string) {
 			// the tree blob itself is referenced first, then its files (filled in below)
 			placeholder := len(refs)
 			refs = append(refs, nil)
+			if r.Chance(8) && len(t.Children) > 0 { // (without children the blob would be the empty blob, which is never stored)
+				t.Root = nil // a stored blob that parses as a Tree without a root
+				rep.Count("tree.nil-root")
+			}
 			for _, d := range append([]*pb.Directory{t.Root}, t.Children...) {
+				if d == nil {
+					continue
+				}
 				for _, f := range d.Files {
+					if r.Chance(15) {
+						// a FileNode without a digest (the blob is client-controlled): the walk skips it
+						rep.Count("tree.file-node-without-digest")
+						continue
+					}
 					f.Digest = ref(newBlob())
 				}
 			}
@@ -303,7 +315,25 @@ func driver(seed uint64, n int, outV, outJSON string, _ []string) {
 		for _, e := range before.Order {
 			local[e.Key] = e.Item.Size
 		}
-		gotAR, _, gerr := dc.GetValidatedActionResult(ctx, acKey)
+		var gotAR *pb.ActionResult
+		var gerr error
+		panicked := ""
+		func() {
+			defer func() {
+				if x := recover(); x != nil {
+					panicked = fmt.Sprint(x)
+				}
+			}()
+			gotAR, _, gerr = dc.GetValidatedActionResult(ctx, acKey)
+		}()
+		if panicked != "" {
+			// C14: a stored blob interpreted as a Tree must not panic the handler (the index lock may
+			// still be held: this cache is abandoned)
+			rep.Fail(c, "C14/C06: GetValidatedActionResult panicked on a stored ActionResult/Tree: "+panicked, strings.Join(text, " ; ")+fmt.Sprintf(" ; trees=%v", treeTable))
+			cases = append(cases, fmt.Sprintf("((mkCfg false %s %s false), 65536, [], [], [], %s, ACMiss, [], [])", CZ(1<<40), CZ(1<<40), HS(emptySha))) // placeholder keeping the case indices aligned
+			rep.CaseTexts = append(rep.CaseTexts, "panicked")
+			continue
+		}
 		after := disk.VerifCacheSnapshot(dc)
 		outcome := "ACMiss"
 		switch {
